@@ -21,6 +21,7 @@ DET = "src/CppUTest/MemoryLeakDetector.cpp"
 HDR = "include/CppUTest/MemoryLeakDetector.h"
 THC = "src/CppUTest/TestHarness_c.cpp"
 MLW = "src/CppUTest/MemoryLeakWarningPlugin.cpp"
+TMA = "src/CppUTest/TestMemoryAllocator.cpp"
 OUT = os.path.join(core.LEAN, "CppUModel", "Gen", "AllocLayoutConstants.lean")
 
 # --------------------------------------------------------------------------- C expression -> Lean (BitVec 64 / Bool)
@@ -212,6 +213,235 @@ def match_shape(body, template, what):
     return mm.groupdict()
 
 
+# --------------------------------------------------------------------------- statement lists
+
+def _balanced(text, i):
+    """text[i] == '{': index just behind the matching '}'"""
+    depth, j = 0, i
+    while j < len(text):
+        if text[j] == "{":
+            depth += 1
+        elif text[j] == "}":
+            depth -= 1
+            if depth == 0:
+                return j + 1
+        j += 1
+    raise TranslateError("unbalanced braces")
+
+
+def parse_statements(body, pats, names, what):
+    """Splits the whitespace-free body into the statements of `pats`, in the order the SOURCE has them.
+    A pattern is (constructor, regex template, sub-patterns or None); `{x}` in a template is the name a local got
+    where it was declared (named group `x` of an earlier statement), so renaming a local changes nothing.  Returns
+    (list of constructors, captures).  A statement no pattern understands raises TranslateError."""
+    text = squeeze(body)
+    names = dict(names)
+    out, caps, i = [], {}, 0
+    while i < len(text):
+        for ctor, tmpl, sub in pats:
+            try:
+                rx = tmpl.format(**names)
+            except KeyError:
+                continue            # uses a local that is not declared (yet)
+            m = re.compile(rx).match(text, i)
+            if not m:
+                continue
+            for k, v in m.groupdict().items():
+                if k == "G":
+                    if "G" in caps:
+                        raise TranslateError("%s: two overflow guards" % what)
+                    caps["G"] = v
+                else:
+                    names[k] = re.escape(v)
+            j = m.end()
+            if sub is not None:     # the regex ends with the opening brace of a block
+                end = _balanced(text, j - 1)
+                inner, _ = parse_statements(text[j:end - 1], sub, names, what + "/" + ctor)
+                if "BODY:" + ctor in caps:
+                    raise TranslateError("%s: block %s occurs twice" % (what, ctor))
+                caps["BODY:" + ctor] = inner
+                j = end
+            out.append(ctor)
+            i = j
+            break
+        else:
+            raise TranslateError("%s: statement not understood: %s" % (what, text[i:i + 160]))
+    return out, caps
+
+
+P_FORCESEP = ("forceSepIfNoCheck", r"#ifdefCPPUTEST_DISABLE_MEM_CORRUPTION_CHECKallocatNodesSeperately=true;#endif", None)
+P_IFNEWNULL = ("ifNewNullReturnNull", r"if\({mem}==NULLPTR\)returnNULLPTR;", None)
+P_CREATENODE = ("createNode", r"MemoryLeakDetectorNode\*(?P<node>\w+)=createMemoryLeakAccountingInformation\(allocator,size,{mem},allocatNodesSeperately\);", None)
+P_STORE = ("store", r"storeLeakInformation\({node},{mem},size,allocator,file,line\);", None)
+P_RETNODE = ("returnNodeMemory", r"return{node}->memory_;", None)
+P_GUARD = ("guardReturnNull", r"if\((?P<G>[^;{{}}]+)\)returnNULLPTR;", None)
+
+ALLOC_PATS = [
+    P_FORCESEP,
+    ("allocData", r"char\*(?P<mem>\w+)=allocateMemoryWithAccountingInformation\(allocator,size,file,line,allocatNodesSeperately\);", None),
+    P_IFNEWNULL, P_CREATENODE,
+    ("ifNodeNullFreeReturnNull", r"if\({node}==NULLPTR\)\{{allocator->free_memory\({mem},size,file,line\);returnNULLPTR;\}}", None),
+    P_STORE, P_RETNODE, P_GUARD,
+]
+INNER_PATS = [
+    ("platformRealloc", r"char\*(?P<mem>\w+)=reallocateMemoryWithAccountingInformation\(allocator,memory,size,file,line,allocatNodesSeperately\);", None),
+    P_IFNEWNULL, P_CREATENODE, P_STORE, P_RETNODE,
+]
+STORE_PATS = [
+    ("initNew", r"node->init\(new_memory,allocationSequenceNumber_\+\+,size,allocator,current_period_,current_allocation_stage_,file,line\);", None),
+    ("writeGuard", r"addMemoryCorruptionInformation\(node->memory_\+node->size_\);", None),
+    ("addNode", r"memoryTable_\.addNewNode\(node\);", None),
+]
+TAKEOLD_PATS = [
+    ("removeOld", r"MemoryLeakDetectorNode\*(?P<rnode>\w+)=memoryTable_\.removeNode\(memory\);", None),
+    ("ifRemovedNullReportReturnNull", r"if\({rnode}==NULLPTR\)\{{outputBuffer_\.reportDeallocateNonAllocatedMemoryFailure\(file,line,allocator,reporter_\);returnNULLPTR;\}}", None),
+    ("copyOld", r"{old}=\*{rnode};", None),
+    ("checkCorruption", r"checkForCorruption\({rnode},file,line,allocator,allocatNodesSeperately\);", None),
+]
+RETRACK_PATS = [
+    ("createNodeOld", r"MemoryLeakDetectorNode\*(?P<onode>\w+)=createMemoryLeakAccountingInformation\({old}\.allocator_,{old}\.size_,memory,allocatNodesSeperately\);", None),
+    ("initOld", r"{onode}->init\(memory,{old}\.number_,{old}\.size_,{old}\.allocator_,{old}\.period_,{old}\.allocation_stage_,{old}\.file_,{old}\.line_\);", None),
+    ("addNode", r"memoryTable_\.addNewNode\({onode}\);", None),
+]
+ALIVE_PATS = [
+    ("readSize", r"size_t(?P<sz>\w+)={rnode}->size_;", None),
+    ("checkCorruption", r"checkForCorruption\({rnode},file,line,allocator,allocatNodesSeperately\);", None),
+    ("freeData", r"allocator->free_memory\(\(char\*\)memory,{sz},file,line\);", None),
+]
+DEALLOC_PATS = [
+    ("ifNullReturn", r"if\(memory==NULLPTR\)return;", None),
+    ("removeOld", r"MemoryLeakDetectorNode\*(?P<rnode>\w+)=memoryTable_\.removeNode\(\(char\*\)memory\);", None),
+    ("ifRemovedNullReportReturn", r"if\({rnode}==NULLPTR\)\{{outputBuffer_\.reportDeallocateNonAllocatedMemoryFailure\(file,line,allocator,reporter_\);return;\}}", None),
+    P_FORCESEP,
+    ("ifAllocatorAlive", r"if\(!allocator->hasBeenDestroyed\(\)\)\{{", ALIVE_PATS),
+]
+REALLOC_PATS = [
+    P_FORCESEP,
+    ("declOldNode", r"MemoryLeakDetectorNode(?P<old>\w+);", None),
+    ("ifMemoryTakeOld", r"if\(memory\)\{{", TAKEOLD_PATS),
+    ("callReallocInner", r"char\*(?P<new>\w+)=reallocateMemoryAndLeakInformation\(allocator,memory,size,file,line,allocatNodesSeperately\);", None),
+    ("ifFailedRetrack", r"if\({new}==NULLPTR&&memory\)\{{", RETRACK_PATS),
+    ("returnNew", r"return{new};", None),
+    P_GUARD,
+]
+
+
+# --------------------------------------------------------------------------- global operator new / delete overloads
+
+def operator_forwarders(mlw):
+    """every global `operator new/delete` overload of MemoryLeakWarningPlugin.cpp: (signature, array, delete, fptr, args)"""
+    out = []
+    rx = re.compile(r"(void\s*\*|void)\s+operator\s+(new|delete)\s*(\[\s*\])?\s*\(([^)]*)\)\s*(?:UT_THROW\s*\([^)]*\)|UT_NOTHROW)?\s*\{([^{}]*)\}")
+    for m in rx.finditer(mlw):
+        ret, kind, arr, params, body = m.groups()
+        ptypes = []
+        for prm in params.split(","):
+            prm = prm.strip()
+            mm = re.fullmatch(r"(.*?[\s\*&])(\w+)", prm)
+            ty = mm.group(1) if mm and mm.group(2) not in ("size_t", "int") and not prm.endswith(("*", "&")) else prm
+            ptypes.append(re.sub(r"\s+", " ", ty).strip().replace(" *", "*").replace(" &", "&"))
+        pnames = [re.fullmatch(r".*?(\w+)", p.strip()).group(1) if re.fullmatch(r".*[\s\*&](\w+)", p.strip()) else "" for p in params.split(",")]
+        b = squeeze(body)
+        mb = re.fullmatch(r"(return)?(\w+)\((.*)\);", b)
+        if not mb or (kind == "new") != bool(mb.group(1)):
+            raise TranslateError("operator %s%s(%s) changed shape: %s" % (kind, "[]" if arr else "", params, b))
+        if (kind == "new") != (squeeze(ret) == "void*"):
+            raise TranslateError("operator %s: return type" % kind)
+        args = mb.group(3)
+        for nm in pnames:
+            pass
+        sig = "%s%s(%s)" % (kind, "[]" if arr else "", ",".join(ptypes))
+        # the arguments, with parameter names replaced by their position
+        a2 = args
+        for k, nm in enumerate(pnames):
+            if nm:
+                a2 = re.sub(r"\b%s\b" % re.escape(nm), "$%d" % k, a2)
+        out.append((sig, bool(arr), kind == "delete", mb.group(2), a2))
+    if not out:
+        raise TranslateError("no global operator new/delete overloads found")
+    return out
+
+
+def c_forwarders(thc, mlw):
+    """the one-line C entry points: (function, callee, arguments with `$k` for the k-th parameter)"""
+    out = []
+    for src, fn in ((thc, "cpputest_malloc"), (thc, "cpputest_strdup"), (thc, "cpputest_strndup"), (thc, "cpputest_calloc"),
+                    (thc, "cpputest_realloc"), (thc, "cpputest_free"), (thc, "cpputest_realloc_location"), (thc, "cpputest_free_location"),
+                    (mlw, "cpputest_malloc_location_with_leak_detection"), (mlw, "cpputest_realloc_location_with_leak_detection"),
+                    (mlw, "cpputest_free_location_with_leak_detection")):
+        m = re.search(r"\b%s\s*\(([^)]*)\)\s*\{" % fn, src)
+        if not m:
+            raise TranslateError("function not found: " + fn)
+        pnames = [re.fullmatch(r".*?(\w+)", q.strip()).group(1) for q in m.group(1).split(",") if q.strip()]
+        b = squeeze(function_body(src, r"\b%s\s*\(([^)]*)\)\s*\{" % fn))
+        mb = re.fullmatch(r"(?:return)?(\w+)\((.*)\);", b)
+        if not mb:
+            raise TranslateError("%s changed shape: %s" % (fn, b))
+        args = mb.group(2)
+        for k, nm in enumerate(pnames):
+            args = re.sub(r"(?<![\w\"<])%s(?![\w>])" % re.escape(nm), "$%d" % k, args)
+        out.append((fn, mb.group(1), args.replace('"', "'")))
+    return out
+
+
+ONE_LINERS = [  # (name in the table, file key, header regex)
+    ("MemoryLeakDetector::allocMemory/3", "det", r"char\*\s*MemoryLeakDetector::allocMemory\s*\(\s*TestMemoryAllocator\*\s*allocator\s*,\s*size_t\s+size\s*,\s*bool\s+allocatNodesSeperately\s*\)\s*\{"),
+    ("MemoryLeakDetector::deallocMemory/3", "det", r"void\s+MemoryLeakDetector::deallocMemory\s*\(\s*TestMemoryAllocator\*\s*allocator\s*,\s*void\*\s*memory\s*,\s*bool\s+allocatNodesSeperately\s*\)\s*\{"),
+    ("checkedMalloc", "tma", r"static\s+char\*\s*checkedMalloc\s*\(\s*size_t\s+size\s*\)\s*\{"),
+    ("TestMemoryAllocator::alloc_memory", "tma", r"char\*\s*\bTestMemoryAllocator::alloc_memory\s*\(\s*size_t\s+size\s*,[^)]*\)\s*\{"),
+    ("TestMemoryAllocator::free_memory", "tma", r"void\s+\bTestMemoryAllocator::free_memory\s*\(\s*char\*\s*memory\s*,[^)]*\)\s*\{"),
+    ("TestMemoryAllocator::allocMemoryLeakNode", "tma", r"char\*\s*\bTestMemoryAllocator::allocMemoryLeakNode\s*\(\s*size_t\s+size\s*\)\s*\{"),
+    ("TestMemoryAllocator::freeMemoryLeakNode", "tma", r"void\s+\bTestMemoryAllocator::freeMemoryLeakNode\s*\(\s*char\*\s*memory\s*\)\s*\{"),
+    ("NullUnknownAllocator::alloc_memory", "tma", r"char\*\s*NullUnknownAllocator::alloc_memory\s*\([^)]*\)\s*\{"),
+    ("NullUnknownAllocator::free_memory", "tma", r"void\s+NullUnknownAllocator::free_memory\s*\([^)]*\)\s*\{"),
+    ("CrashOnAllocationAllocator::alloc_memory", "tma", r"char\*\s*CrashOnAllocationAllocator::alloc_memory\s*\(\s*size_t\s+size\s*,\s*const\s+char\*\s*file\s*,\s*size_t\s+line\s*\)\s*\{"),
+]
+
+
+def one_liners(srcs):
+    """small bodies the model takes for granted (what an allocator answers, the short overloads): their exact text"""
+    out = []
+    for name, key, rx in ONE_LINERS:
+        b = squeeze(function_body(srcs[key], rx))
+        if len(b) > 300 or "\\" in b:
+            raise TranslateError("%s is no longer a small body: %s" % (name, b[:200]))
+        out.append((name, b.replace('"', "'")))
+    return out
+
+
+THREADSAFE_PAIRS = ["mem_leak_malloc", "mem_leak_free", "mem_leak_realloc", "mem_leak_operator_new", "mem_leak_operator_new_nothrow",
+                    "mem_leak_operator_new_debug", "mem_leak_operator_new_array", "mem_leak_operator_new_array_nothrow",
+                    "mem_leak_operator_new_array_debug", "mem_leak_operator_delete", "mem_leak_operator_delete_array"]
+
+
+def threadsafe_bodies(mlw):
+    """(function, its threadsafe_ twin has the very same body behind `MemLeakScopedMutex lock;`)"""
+    out = []
+    for fn in THREADSAFE_PAIRS:
+        plain = squeeze(function_body(mlw, r"static\s+void\s*\*?\s*%s\s*\([^)]*\)[^{;]*\{" % fn))
+        twin = squeeze(function_body(mlw, r"static\s+void\s*\*?\s*threadsafe_%s\s*\([^)]*\)[^{;]*\{" % fn))
+        out.append((fn, twin == "MemLeakScopedMutexlock;" + plain))
+    return out
+
+
+def threadsafe_overloads(mlw):
+    body = function_body(mlw, r"void\s+MemoryLeakWarningPlugin::turnOnThreadSafeNewDeleteOverloads\s*\(\s*\)\s*\{")
+    b = squeeze(body)
+    m = re.fullmatch(r"#ifCPPUTEST_USE_MEM_LEAK_DETECTION((?:\w+=\w+;)+)#endif", b)
+    if not m:
+        raise TranslateError("turnOnThreadSafeNewDeleteOverloads changed shape: " + b[:300])
+    return [tuple(x.split("=")) for x in m.group(1).split(";") if x]
+
+
+def default_overloads(mlw):
+    body = function_body(mlw, r"void\s+MemoryLeakWarningPlugin::turnOnDefaultNotThreadSafeNewDeleteOverloads\s*\(\s*\)\s*\{")
+    b = squeeze(body)
+    m = re.fullmatch(r"#ifCPPUTEST_USE_MEM_LEAK_DETECTION((?:\w+=\w+;)+)#endif", b)
+    if not m:
+        raise TranslateError("turnOnDefaultNotThreadSafeNewDeleteOverloads changed shape: " + b[:300])
+    return [tuple(x.split("=")) for x in m.group(1).split(";") if x]
+
+
 # --------------------------------------------------------------------------- struct layout (LP64)
 
 LP64 = [  # (regex on the declaration without the name, size, alignment)
@@ -281,6 +511,7 @@ def extract():
     hdr = strip_comments(read(HDR))
     thc = strip_comments(read(THC))
     mlw = strip_comments(read(MLW))
+    tma = strip_comments(read(TMA))
 
     m = re.search(r"#ifdef\s+CPPUTEST_DISABLE_MEM_CORRUPTION_CHECK\s+memory_corruption_buffer_size\s*=\s*(\d+)\s*"
                   r"#else\s+memory_corruption_buffer_size\s*=\s*(\d+)\s*#endif", hdr)
@@ -335,45 +566,29 @@ def extract():
     match_shape(body, "if(allocatNodesSeperately)return(MemoryLeakDetectorNode*)(void*)allocator->allocMemoryLeakNode(sizeof(MemoryLeakDetectorNode));"
                       "elsereturngetNodeFromMemoryPointer(memory,size);", "createMemoryLeakAccountingInformation")
 
-    body = function_body(det, r"void\s+MemoryLeakDetector::storeLeakInformation\s*\([^)]*\)\s*\{")
-    match_shape(body, "node->init(new_memory,allocationSequenceNumber_++,size,allocator,current_period_,current_allocation_stage_,file,line);"
-                      "addMemoryCorruptionInformation(node->memory_+node->size_);memoryTable_.addNewNode(node);", "storeLeakInformation")
+    body = function_body(det, r"void\s+MemoryLeakDetector::storeLeakInformation\s*\(\s*MemoryLeakDetectorNode\s*\*\s*node\s*,\s*char\s*\*\s*new_memory\s*,"
+                              r"\s*size_t\s+size\s*,\s*TestMemoryAllocator\s*\*\s*allocator\s*,\s*const\s+char\s*\*\s*file\s*,\s*size_t\s+line\s*\)\s*\{")
+    store_code, _ = parse_statements(body, STORE_PATS, {}, "storeLeakInformation")
 
     body = function_body(det, r"void\s+MemoryLeakDetector::addMemoryCorruptionInformation\s*\(\s*char\*\s*memory\s*\)\s*\{")
     match_shape(body, "for(size_ti=0;i<memory_corruption_buffer_size;i++)memory[i]=GuardBytes[i%sizeof(GuardBytes)];",
                 "addMemoryCorruptionInformation")
 
-    body = function_body(det, r"char\*\s*MemoryLeakDetector::reallocateMemoryAndLeakInformation\s*\([^)]*\)\s*\{")
-    match_shape(body, "char*new_memory=reallocateMemoryWithAccountingInformation(allocator,memory,size,file,line,allocatNodesSeperately);"
-                      "if(new_memory==NULLPTR)returnNULLPTR;"
-                      "MemoryLeakDetectorNode*node=createMemoryLeakAccountingInformation(allocator,size,new_memory,allocatNodesSeperately);"
-                      "storeLeakInformation(node,new_memory,size,allocator,file,line);returnnode->memory_;",
-                "reallocateMemoryAndLeakInformation")
+    PARAMS6 = (r"\(\s*TestMemoryAllocator\s*\*\s*allocator\s*,\s*char\s*\*\s*memory\s*,\s*size_t\s+size\s*,\s*const\s+char\s*\*\s*file\s*,"
+               r"\s*size_t\s+line\s*,\s*bool\s+allocatNodesSeperately\s*\)\s*\{")
+    body = function_body(det, r"char\*\s*MemoryLeakDetector::reallocateMemoryAndLeakInformation\s*" + PARAMS6)
+    inner_code, _ = parse_statements(body, INNER_PATS, {}, "reallocateMemoryAndLeakInformation")
 
-    body = function_body(det, r"char\*\s*MemoryLeakDetector::allocMemory\s*\(\s*TestMemoryAllocator\*\s*allocator\s*,\s*size_t\s+size\s*,\s*const\s+char\*\s*file[^)]*\)\s*\{")
-    h = match_shape(body, "#ifdefCPPUTEST_DISABLE_MEM_CORRUPTION_CHECKallocatNodesSeperately=true;#endif"
-                          "if(«G»)returnNULLPTR;"
-                          "char*memory=allocateMemoryWithAccountingInformation(allocator,size,file,line,allocatNodesSeperately);"
-                          "if(memory==NULLPTR)returnNULLPTR;"
-                          "MemoryLeakDetectorNode*node=createMemoryLeakAccountingInformation(allocator,size,memory,allocatNodesSeperately);"
-                          "if(node==NULLPTR){allocator->free_memory(memory,size,file,line);returnNULLPTR;}"
-                          "storeLeakInformation(node,memory,size,allocator,file,line);returnnode->memory_;", "allocMemory")
-    aguard = expr(h["G"], ["size"], ["sizeOfMemoryWithCorruptionInfo"], kind="bool")
+    body = function_body(det, r"char\*\s*MemoryLeakDetector::allocMemory\s*\(\s*TestMemoryAllocator\*\s*allocator\s*,\s*size_t\s+size\s*,\s*const\s+char\*\s*file\s*,"
+                              r"\s*size_t\s+line\s*,\s*bool\s+allocatNodesSeperately\s*\)\s*\{")
+    alloc_code, h = parse_statements(body, ALLOC_PATS, {}, "allocMemory")
+    # no guard statement in the source: the regenerated guard never rejects (the theorems about it then fail)
+    aguard = expr(h["G"], ["size"], ["sizeOfMemoryWithCorruptionInfo"], kind="bool") if "G" in h else "false"
 
-    body = function_body(det, r"char\*\s*MemoryLeakDetector::reallocMemory\s*\([^)]*\)\s*\{")
-    h = match_shape(body, "#ifdefCPPUTEST_DISABLE_MEM_CORRUPTION_CHECKallocatNodesSeperately=true;#endif"
-                          "if(«G»)returnNULLPTR;"
-                          "MemoryLeakDetectorNodeoldNode;"
-                          "if(memory){MemoryLeakDetectorNode*node=memoryTable_.removeNode(memory);"
-                          "if(node==NULLPTR){outputBuffer_.reportDeallocateNonAllocatedMemoryFailure(file,line,allocator,reporter_);returnNULLPTR;}"
-                          "oldNode=*node;checkForCorruption(node,file,line,allocator,allocatNodesSeperately);}"
-                          "char*new_memory=reallocateMemoryAndLeakInformation(allocator,memory,size,file,line,allocatNodesSeperately);"
-                          "if(new_memory==NULLPTR&&memory){"
-                          "MemoryLeakDetectorNode*node=createMemoryLeakAccountingInformation(oldNode.allocator_,oldNode.size_,memory,allocatNodesSeperately);"
-                          "node->init(memory,oldNode.number_,oldNode.size_,oldNode.allocator_,oldNode.period_,oldNode.allocation_stage_,oldNode.file_,oldNode.line_);"
-                          "memoryTable_.addNewNode(node);}"
-                          "returnnew_memory;", "reallocMemory")
-    rguard = expr(h["G"], ["size"], ["sizeOfMemoryWithCorruptionInfo"], kind="bool")
+    body = function_body(det, r"char\*\s*MemoryLeakDetector::reallocMemory\s*" + PARAMS6)
+    realloc_code, h = parse_statements(body, REALLOC_PATS, {}, "reallocMemory")
+    rguard = expr(h["G"], ["size"], ["sizeOfMemoryWithCorruptionInfo"], kind="bool") if "G" in h else "false"
+    takeold_code, retrack_code = h.get("BODY:ifMemoryTakeOld", []), h.get("BODY:ifFailedRetrack", [])
 
     # ---- the pointer handed to the caller is the pointer the platform returned (offset 0), and it is the pointer
     #      handed back to free_memory: node->init stores `memory`, allocMemory returns node->memory_, deallocMemory
@@ -381,13 +596,10 @@ def extract():
     body = function_body(det, r"void\s+MemoryLeakDetectorNode::init\s*\([^)]*\)\s*\{")
     match_shape(body, "number_=number;memory_=memory;size_=size;allocator_=allocator;period_=period;"
                       "allocation_stage_=allocation_stage;file_=file;line_=line;", "MemoryLeakDetectorNode::init")
-    body = function_body(det, r"void\s+MemoryLeakDetector::deallocMemory\s*\(\s*TestMemoryAllocator\*\s*allocator\s*,\s*void\*\s*memory\s*,\s*const\s+char\*\s*file[^)]*\)\s*\{")
-    match_shape(body, "if(memory==NULLPTR)return;MemoryLeakDetectorNode*node=memoryTable_.removeNode((char*)memory);"
-                      "if(node==NULLPTR){outputBuffer_.reportDeallocateNonAllocatedMemoryFailure(file,line,allocator,reporter_);return;}"
-                      "#ifdefCPPUTEST_DISABLE_MEM_CORRUPTION_CHECKallocatNodesSeperately=true;#endif"
-                      "if(!allocator->hasBeenDestroyed()){size_tsize=node->size_;"
-                      "checkForCorruption(node,file,line,allocator,allocatNodesSeperately);"
-                      "allocator->free_memory((char*)memory,size,file,line);}", "deallocMemory")
+    body = function_body(det, r"void\s+MemoryLeakDetector::deallocMemory\s*\(\s*TestMemoryAllocator\*\s*allocator\s*,\s*void\*\s*memory\s*,\s*const\s+char\*\s*file\s*,"
+                              r"\s*size_t\s+line\s*,\s*bool\s+allocatNodesSeperately\s*\)\s*\{")
+    dealloc_code, h = parse_statements(body, DEALLOC_PATS, {}, "deallocMemory")
+    alive_code = h.get("BODY:ifAllocatorAlive", [])
     body = function_body(det, r"void\s+MemoryLeakDetector::checkForCorruption\s*\([^)]*\)\s*\{")
     match_shape(body, "if(!matchingAllocation(node->allocator_->actualAllocator(),allocator->actualAllocator()))"
                       "outputBuffer_.reportAllocationDeallocationMismatchFailure(node,file,line,allocator->actualAllocator(),reporter_);"
@@ -525,14 +737,52 @@ def extract():
     L.append("def newVariants : List (String × Bool × Bool × Bool) := [\n%s]" % ",\n".join(
         '  ("%s", %s, %s, %s)' % (n, str(a).lower(), str(t).lower(), str(nt).lower()) for n, a, t, nt in variants))
     L.append("\nend Gen.AllocLayout")
+    code = code_text([("allocMemoryCode", "`MemoryLeakDetector::allocMemory(allocator, size, file, line, allocatNodesSeperately)`", alloc_code),
+                      ("storeCode", "`MemoryLeakDetector::storeLeakInformation`", store_code),
+                      ("reallocInnerCode", "`MemoryLeakDetector::reallocateMemoryAndLeakInformation`", inner_code),
+                      ("reallocMemoryCode", "`MemoryLeakDetector::reallocMemory`", realloc_code),
+                      ("reallocTakeOldCode", "body of `if (memory) { … }` in `reallocMemory`", takeold_code),
+                      ("reallocRetrackCode", "body of `if (new_memory == NULLPTR && memory) { … }` in `reallocMemory`", retrack_code),
+                      ("deallocMemoryCode", "`MemoryLeakDetector::deallocMemory(allocator, memory, file, line, allocatNodesSeperately)`", dealloc_code),
+                      ("deallocAliveCode", "body of `if (!allocator->hasBeenDestroyed()) { … }` in `deallocMemory`", alive_code)],
+                     operator_forwarders(mlw), default_overloads(mlw), c_forwarders(thc, mlw),
+                     one_liners({"det": det, "tma": tma}), threadsafe_bodies(mlw), threadsafe_overloads(mlw))
+    return "\n".join(L) + "\n", code
+
+
+OUT_CODE = os.path.join(core.LEAN, "CppUModel", "Gen", "AllocLayoutCode.lean")
+
+
+def code_text(lists, fwd, ovl, cfw, onel, tsb, tso):
+    L = [HEADER % ("translate/extract_alloclayout.py", DET + ", " + MLW + ", " + THC + ", " + TMA) + "import CppUModel.Model.AllocLayoutSyntax",
+         "namespace Gen.AllocLayoutCode", "open AllocLayout", ""]
+    for name, doc, steps in lists:
+        L.append("/-- %s -/" % doc)
+        L.append("def %s : List AStep := [%s]\n" % (name, ", ".join("." + x for x in steps)))
+    L.append("/-- the global `operator new` / `operator delete` overloads: signature, array form, delete, the function pointer called, "
+             "the arguments passed (`$k` = k-th parameter) -/")
+    L.append("def forwarders : List Forwarder := [\n%s]\n" % ",\n".join(
+        '  ⟨"%s", %s, %s, "%s", "%s"⟩' % (sig, str(a).lower(), str(d).lower(), f, args) for sig, a, d, f, args in fwd))
+    L.append("/-- `turnOnDefaultNotThreadSafeNewDeleteOverloads`: function pointer := function -/")
+    L.append("def defaultOverloads : List (String × String) := [\n%s]\n" % ",\n".join('  ("%s", "%s")' % p for p in ovl))
+    L.append("/-- the one-line C entry points: function, callee, arguments (`$k` = k-th parameter) -/")
+    L.append("def cForwarders : List (String × String × String) := [\n%s]\n" % ",\n".join('  ("%s", "%s", "%s")' % t for t in cfw))
+    L.append("/-- every tracked entry point and whether its `threadsafe_` twin is `MemLeakScopedMutex lock;` followed by the very same body -/")
+    L.append("def threadsafeTwins : List (String × Bool) := [\n%s]\n" % ",\n".join('  ("%s", %s)' % (n, str(b).lower()) for n, b in tsb))
+    L.append("/-- `turnOnThreadSafeNewDeleteOverloads`: function pointer := function -/")
+    L.append("def threadsafeOverloads : List (String × String) := [\n%s]\n" % ",\n".join('  ("%s", "%s")' % q for q in tso))
+    L.append("/-- small bodies taken for granted by the model (what an allocator answers, the short overloads): exact text, whitespace removed -/")
+    L.append("def oneLiners : List (String × String) := [\n%s]\n" % ",\n".join('  ("%s", "%s")' % t for t in onel))
+    L.append("end Gen.AllocLayoutCode")
     return "\n".join(L) + "\n"
 
 
 def run():
-    text = extract()
+    text, code = extract()
     core.write_if_changed(OUT, text)
+    core.write_if_changed(OUT_CODE, code)
     return []
 
 
 if __name__ == "__main__":
-    print(extract())
+    print("\n".join(extract()))
